@@ -45,6 +45,11 @@ def check_orduse(crate, rep, cfg):
     ok = ok and n_guarded >= 2 and unguarded <= 1      # the one unguarded Ok is the empty-input early return
     rep.add("C16.ORDUSE", "C16.ORDUSE:sort:comparable-before-ok", ok, sort.where(0), "both non-empty Ok returns of sort are dominated by an ensure_comparable call whose Err is "
             "propagated (%d guarded, %d early return)" % (n_guarded, unguarded) + ("" if ok else " — VIOLATED"))
+    # equal keys keep their input order: the sort is one of std's stable sorts
+    sorts = [callee_def(t).rsplit("::", 1)[-1] for bb, t in sort.calls() if ("<impl [T]>::sort" in callee_def(t) or "Vec::<T, A>::sort" in callee_def(t))]
+    ok_st = bool(sorts) and all(x in ("sort_by", "sort_by_key", "sort", "sort_by_cached_key") for x in sorts)
+    rep.add("C16.ORDUSE", "C16.ORDUSE:sort:stable", ok_st, sort.where(0), "filters::sort orders with a stable std sort (%s): elements with equal keys keep their input order" % sorted(set(sorts))
+            + ("" if ok_st else " — VIOLATED: sort_unstable* may reorder equal keys (visible beyond std's 20-element insertion-sort threshold)"))
     ec0 = crate.one("filters::ensure_comparable")
     # by shape: one loop, and a loop-carried `Option<&Value>` (the previous element) assigned before the loop and inside it
     lps = ec0.loops()
